@@ -199,10 +199,22 @@ func c12ConvergeLate(witness, late bool) {
 	exit := verif_choose(nw.n)
 	prefix := &net.IPNet{IP: net.IP{10, verif_nondet_u8(), 0, 0}, Mask: net.CIDRMask(16, 32)}
 	nw.rm[exit].AddLocalRoute(prefix, 0)
-	// announcers: the exit, plus the others up to the bound
+	// a second agent may advertise the same prefix (redundant exits)
+	exit2 := exit
+	if !late && c12Announcers > 1 {
+		exit2 = verif_choose(nw.n)
+		if exit2 != exit {
+			nw.rm[exit2].AddLocalRoute(prefix, 0)
+		}
+	}
+	// announcers: the exits, plus the others up to the bound
 	announces := [c12Max]bool{}
 	announces[exit] = true
 	cnt := 1
+	if exit2 != exit {
+		announces[exit2] = true
+		cnt++
+	}
 	maxAnn := c12Announcers
 	if late {
 		maxAnn = c12LateAnnouncers
@@ -255,15 +267,21 @@ func c12ConvergeLate(witness, late bool) {
 				verif_assert(int(ar.Metric) == len(ar.Path), "C13/presence-metric-is-not-the-path-length")
 			}
 		}
-		if x == exit {
+		// every advertised route is learned: one entry per advertising origin
+		for _, e := range []int{exit, exit2} {
+			if e != x {
+				verif_assert(nw.rm[x].Table().HasRoute(prefix, fID(e)), "C12/advertised-route-not-learned")
+			}
+		}
+		if x == exit || x == exit2 {
 			continue
 		}
 		r := nw.rm[x].Lookup(dst)
-		verif_assert(r != nil && r.OriginAgent == fID(exit), "C12/advertised-route-not-learned")
+		verif_assert(r != nil && (r.OriginAgent == fID(exit) || r.OriginAgent == fID(exit2)), "C12/advertised-route-not-learned")
 		if r != nil {
 			nh := c12Idx(r.NextHop)
 			verif_assert(nh >= 0 && nh < nw.n && nw.link[x][nh], "C12/route-next-hop-is-not-a-neighbour")
-			verif_assert(c12PathOK(nw, x, r.NextHop, r.Path, exit), "C12/route-path-is-not-a-chain-of-links-to-the-origin")
+			verif_assert(c12PathOK(nw, x, r.NextHop, r.Path, c12Idx(r.OriginAgent)), "C12/route-path-is-not-a-chain-of-links-to-the-origin")
 			verif_assert(int(r.Metric) == len(r.Path), "C12/route-metric-is-not-the-path-length")
 		}
 	}
